@@ -20,7 +20,7 @@ var recTamper = ev.New("C19", "tamper",
 		"bit flip / multi-byte overwrite / insertion / truncation at any offset (boundary-biased per region), drop / duplicate / swap / replay of whole packets, wrong AAD (none, altered, also on 2nd packet), "+
 		"wrong garbage terminator (other role's, altered, zero), plus fault-free controls. Oracle: let d be the first offset where the faulty stream departs from the genuine one; "+
 		"d inside the handshake => Respond/CompleteHandshake must fail; otherwise exactly the non-decoy packets that end before d are delivered unchanged and in order, the next V2ReceivePacket fails, "+
-		"and so do three further calls. Non-trivial = a fault was applied; distinct by parameters and fault",
+		"and so do further calls while unread bytes remain. Non-trivial = a fault was applied; distinct by parameters and fault",
 	"none", "flip/key", "flip/garbage", "flip/terminator", "flip/hs-packet", "flip/app-length", "flip/app-body", "flip/app-tag",
 	"truncate", "overwrite", "insert", "drop", "duplicate", "swap", "replay", "wrong-aad", "wrong-terminator")
 
@@ -64,7 +64,7 @@ func genTamper(t *rapid.T) *tamperCase {
 	c.chunks = genChunks(t)
 	hs := len(c.decoysM) + 1
 	var n int
-	switch k := rapid.IntRange(0, 9).Draw(t, "app-kind"); {
+	switch k := pick(t, "app-kind", 10); {
 	case k < 6:
 		n = rapid.IntRange(0, 8).Draw(t, "app-n")
 	case k < 8:
@@ -75,7 +75,7 @@ func genTamper(t *rapid.T) *tamperCase {
 	c.app = make([]pkt, n)
 	for i := range c.app {
 		sz := rapid.OneOf(rapid.SampledFrom([]int{0, 1, 2, 15, 16, 17, 64}), rapid.IntRange(0, 120)).Draw(t, "app-size")
-		if n < 10 && rapid.IntRange(0, 19).Draw(t, "app-big") == 0 {
+		if n < 10 && pick(t, "app-big", 20) == 0 {
 			sz = rapid.IntRange(1000, 70000).Draw(t, "app-size-big")
 		}
 		c.app[i] = pkt{size: sz, ignore: rapid.IntRange(0, 3).Draw(t, "app-ign") == 0}
@@ -428,9 +428,15 @@ func TestTamper(t *testing.T) {
 				t.Fatalf("packet %d delivered with contents %x, sent %x; %s", i, head(got), head(wc), desc)
 			}
 		}
+		// The next call meets the fault (or the end of the stream) and must fail;
+		// while unread bytes remain, later calls must fail too (each of them
+		// makes btcd allocate a buffer of a random 24-bit length, hence the cap).
 		for k := 0; k < 4; k++ {
 			if got, err := bt.V2ReceivePacket(nil); err == nil {
 				t.Fatalf("V2ReceivePacket call %d after the last intact packet returned plaintext %x (len %d): tampered or replayed data accepted; %s", k, head(got), len(got), desc)
+			}
+			if w.pending(0) == 0 {
+				break
 			}
 		}
 	})
